@@ -121,6 +121,19 @@ HAND = [
   r = g(i)
   return r
 '''),
+    ('ty:chained_unpack_then_name', '''def f(x: int, y: float, b: bool, k: int):
+  c, d = t = x, y
+  r = t
+  u = r
+  e, g = h = i = y, b
+  while k > 0:
+    k = k - 1
+    p, q = w = d, c
+    r = w
+  s = r
+  z = i
+  return (u, s, z, h)
+'''),
     ('ty:nonlocal_writer', '''def f(x: int, y: float, b: bool, k: int):
   a = 0
   def w(v: float):
